@@ -576,6 +576,9 @@ func visitInstr(fr *frame, instr ssa.Instruction) continuation {
 		if p == nil {
 			fr.fault(instr, "nilderef", "invalid memory address or nil pointer dereference")
 		}
+		if len(cellGuards) > 0 {
+			guardCheck(fr, instr, cellGuards[p], true)
+		}
 		store(p, fr.get(instr.Val))
 	case *ssa.If:
 		c := fr.get(instr.Cond)
